@@ -248,9 +248,11 @@ def install(interp, lnet):
     old_chain = mod.ns.get("chain")
 
     def chain_cs(it, a, k):
-        if any(isinstance(x, (_KeyView, AList)) for x in a):
+        if any(isinstance(x, (_KeyView, AList, ADict)) for x in a):
             out = AList()
             for x in a:
+                if isinstance(x, ADict):  # iterating a dict is iterating its keys
+                    x = _KeyView(x, "keys")
                 if isinstance(x, _KeyView):
                     out.parts.append(x.ref())
                 elif isinstance(x, AList):
@@ -521,6 +523,11 @@ def check_compact12(c, net, F, params, more_out, compact):
 def _check_compact12(c, net, F, params, more_out, compact, todo):
     nin, vin = F.names_in.parts, F.ins.parts
     nparams = 1 if params else 0
+    for part in list(nin) + list(vin) + list(F.names_out.parts) + list(F.outs.parts):
+        if isinstance(part, (ADict, _KeyView, dict, list, tuple, MSeq)):
+            # a whole collection where its entries should be listed: a form of building the lists that the
+            # abstract collections do not flatten - a limit of this check, not a wrong layout
+            raise Unsupported(f"layout: {type(part).__name__} as one entry of an argument / result list")
     if compact == 1:
         ok = len(nin) == 3 + nparams and len(vin) == 3 + nparams and all(isinstance(p, KeysRef) for p in nin[:3]) and all(isinstance(p, ValuesRef) for p in vin[:3]) \
             and all(a.d is b.d for a, b in zip(nin[:3], vin[:3]))
